@@ -175,8 +175,11 @@ func (t *translator) pow2Idiom(c *ast.CallExpr) (string, bool) {
 		return "", false
 	}
 	inner, ok := c.Args[0].(*ast.CallExpr)
-	if !ok || exprStr(inner.Fun) != "math.Pow" || len(inner.Args) != 2 || exprStr(inner.Args[0]) != "2" {
+	if !ok || exprStr(inner.Fun) != "math.Pow" || len(inner.Args) != 2 {
 		return "", false
+	}
+	if base := exprStr(inner.Args[0]); base != "2" && base != "2.0" && t.consts[base] != "(2)" {
+		return "", false // the base is neither the literal 2 nor a named constant equal to 2
 	}
 	arg := inner.Args[1]
 	abs := false
@@ -240,6 +243,10 @@ func (t *translator) intExpr(e ast.Expr) string {
 	case *ast.CallExpr:
 		if s, ok := t.pow2Idiom(v); ok {
 			return s
+		}
+		// builtin max / min of two int64 expressions
+		if id, ok := v.Fun.(*ast.Ident); ok && (id.Name == "max" || id.Name == "min") && len(v.Args) == 2 {
+			return "(" + id.Name + " " + t.intExpr(v.Args[0]) + " " + t.intExpr(v.Args[1]) + ")"
 		}
 		// obj.X() on a parsed ID
 		if sel, ok := v.Fun.(*ast.SelectorExpr); ok && len(v.Args) == 0 {
@@ -402,6 +409,40 @@ func (t *translator) returnStmt(r *ast.ReturnStmt, ind string) string {
 			return ind + "return .ok (" + t.named[0] + ", " + t.named[1] + ")\n"
 		}
 		t.failf("bare return in a function without named results")
+		return ""
+	}
+	// `return f(…)` forwarding all results of a translated function of the same result kind
+	if len(res) == 1 {
+		if call, ok := res[0].(*ast.CallExpr); ok {
+			name := exprStr(call.Fun)
+			if k := strings.LastIndex(name, "."); k >= 0 {
+				name = name[k+1:]
+			}
+			if info, known := t.fns[name]; known && info.kind == t.cur.kind && info.arity == t.cur.arity &&
+				(t.cur.kind == retOutInt || t.cur.kind == retOutPair || t.cur.kind == retTuple || t.cur.kind == retErrBool) {
+				args := make([]string, len(call.Args))
+				for k, a := range call.Args {
+					if id, isId := a.(*ast.Ident); isId && (id.Name == "true" || id.Name == "false") {
+						args[k] = id.Name
+					} else {
+						args[k] = t.intExpr(a)
+					}
+				}
+				fuel := ""
+				if t.fuelFns[name] {
+					t.usesFuel = true
+					fuel = "fuel "
+				}
+				return ind + "return (Gen." + name + " " + fuel + strings.Join(args, " ") + ")\n"
+			}
+		}
+	}
+	want := map[retKind]int{retInt: 1, retBool: 1, retErrBool: 2, retErrOnly: 1, retOutInt: 2, retOutPair: 3, retIDString: 1}[t.cur.kind]
+	if t.cur.kind == retTuple {
+		want = t.cur.arity
+	}
+	if len(res) != want {
+		t.failf("return with %d values in a function with %d results", len(res), want)
 		return ""
 	}
 	switch t.cur.kind {
@@ -622,6 +663,33 @@ func (t *translator) block(stmts []ast.Stmt, ind string, declared map[string]boo
 						t.failf("call of %s not followed by `if !%s { return … }`", name, okName)
 						continue
 					}
+					if known && info.kind == retTuple && len(v.Lhs) == info.arity {
+						// a, b := f(…) where f returns a tuple of int64
+						tmp := fmt.Sprintf("tup%d", fset.Position(v.Pos()).Line)
+						if t.fuelFns[name] {
+							t.usesFuel = true
+							callStr = "Gen." + name + " fuel " + strings.Join(args, " ")
+						}
+						sb.WriteString(ind + "let " + tmp + " := " + callStr + "\n")
+						for k, l := range v.Lhs {
+							nm := exprStr(l)
+							if nm == "_" {
+								continue
+							}
+							proj := tmp + strings.Repeat(".2", k)
+							if k < len(v.Lhs)-1 {
+								proj += ".1"
+							}
+							if v.Tok == token.DEFINE && !declared[nm] {
+								sb.WriteString(ind + "let mut " + nm + " : Int := " + proj + "\n")
+								declared[nm] = true
+								t.scope = append(t.scope, nm)
+							} else {
+								sb.WriteString(ind + nm + " := " + proj + "\n")
+							}
+						}
+						continue
+					}
 					t.failf("unsupported multi-value assignment from %s", name)
 					continue
 				}
@@ -757,7 +825,7 @@ func (t *translator) block(stmts []ast.Stmt, ind string, declared map[string]boo
 			}
 		case *ast.SwitchStmt:
 			// switch tag { case a, b: … default: … } without fallthrough → an if-chain on tag == a ∨ tag == b
-			if v.Init != nil || v.Tag == nil {
+			if v.Init != nil {
 				t.failf("unsupported switch at line %d", fset.Position(s.Pos()).Line)
 				continue
 			}
@@ -785,7 +853,11 @@ func (t *translator) block(stmts []ast.Stmt, ind string, declared map[string]boo
 			for _, cc := range clauses {
 				var alts []string
 				for _, e := range cc.List {
-					alts = append(alts, t.propExpr(&ast.BinaryExpr{X: v.Tag, Op: token.EQL, Y: e}))
+					if v.Tag == nil { // switch { case cond: … }
+						alts = append(alts, t.propExpr(e))
+					} else {
+						alts = append(alts, t.propExpr(&ast.BinaryExpr{X: v.Tag, Op: token.EQL, Y: e}))
+					}
 				}
 				sb.WriteString(cur + "if " + strings.Join(alts, " ∨ ") + " then\n")
 				sb.WriteString(t.block(cc.Body, cur+"  ", declared))
